@@ -73,33 +73,23 @@ func BuildServeModel(p *Prog, ro *Roles) *ServeModel {
 			}
 		}
 	}
-	// reset functions
-	lidx := -1
-	if ro.ServiceT != nil {
-		lidx = fieldIndex(ro.ServiceT, "listener")
-	}
+	// reset functions: called from a serving function's deferred closure and dropping the listener on every path
+	ec := newEffectCache(p, ro.T)
 	for _, sf := range m.Fns {
 		for _, d := range sf.Defers {
 			t := staticTarget(&d.Call)
-			if t == nil {
+			if t == nil || !p.InRepo(t) {
 				continue
 			}
-			for g := range ro.CG.Reach([]*ssa.Function{t}, false) {
-				for _, b := range g.Blocks {
-					for _, in := range b.Instrs {
-						st, ok := in.(*ssa.Store)
-						if !ok {
-							continue
-						}
-						fa, ok := st.Addr.(*ssa.FieldAddr)
-						if !ok || fa.Field != lidx || !isNamed(fa.X.Type(), pkgVarlink, "Service") {
-							continue
-						}
-						if c, ok := st.Val.(*ssa.Const); ok && c.IsNil() {
-							m.Reset = appendFn(m.Reset, g)
-						}
-					}
+			found := false
+			for _, cs := range callsIn(t, false) {
+				if c := staticTarget(cs.Common); c != nil && p.InRepo(c) && ec.zeroesOnEveryPath(c, "listener") {
+					m.Reset = appendFn(m.Reset, c)
+					found = true
 				}
+			}
+			if !found && ec.zeroesOnEveryPath(t, "listener") {
+				m.Reset = appendFn(m.Reset, t)
 			}
 		}
 	}
@@ -436,4 +426,104 @@ func timeoutFact(fs []Fact, pol bool) bool {
 		}
 	}
 	return false
+}
+
+// ---- effects through helpers
+
+type effectCache struct {
+	p      *Prog
+	T      *Terms
+	zero   map[string]map[*ssa.Function]int // field -> function -> 0 unknown, 1 yes, 2 no
+	closes map[*ssa.Function]int
+}
+
+func newEffectCache(p *Prog, T *Terms) *effectCache {
+	return &effectCache{p: p, T: T, zero: map[string]map[*ssa.Function]int{}, closes: map[*ssa.Function]int{}}
+}
+
+// zeroesOnEveryPath: every path through f stores the zero value to Service.<fld>, directly or through a repo callee that does.
+func (ec *effectCache) zeroesOnEveryPath(f *ssa.Function, fld string) bool {
+	if f == nil || f.Blocks == nil {
+		return false
+	}
+	if ec.zero[fld] == nil {
+		ec.zero[fld] = map[*ssa.Function]int{}
+	}
+	switch ec.zero[fld][f] {
+	case 1:
+		return true
+	case 2, 3:
+		return false
+	}
+	ec.zero[fld][f] = 3 // in progress: recursion does not count
+	// a path on which the member is already known to hold its zero value needs no store
+	reach, _ := reachInstr(f, nil, isReturn, func(in ssa.Instruction) bool { return ec.zeroes(in, fld) }, func(a, b *ssa.BasicBlock) bool {
+		for _, fc := range ec.T.edgeFactsOn(a, b) {
+			if fc.Op != "EQ" {
+				continue
+			}
+			for _, pr := range [][2]string{{fc.A, fc.B}, {fc.B, fc.A}} {
+				if strings.HasSuffix(strip(pr[0]), "."+fld) && (pr[1] == "nil" || pr[1] == "const:false" || pr[1] == `const:""` || pr[1] == "const:0") {
+					return true
+				}
+			}
+		}
+		return false
+	})
+	ok := !reach
+	ec.zero[fld][f] = ifi(ok, 1, 2)
+	return ok
+}
+
+// zeroes: the instruction stores the zero value to Service.<fld>, or calls a repo function that does so on every path.
+func (ec *effectCache) zeroes(in ssa.Instruction, fld string) bool {
+	if isZeroStoreTo(in, fld) {
+		return true
+	}
+	if c, ok := in.(*ssa.Call); ok {
+		if t := staticTarget(&c.Call); t != nil && ec.p.InRepo(t) {
+			return ec.zeroesOnEveryPath(t, fld)
+		}
+	}
+	return false
+}
+
+// closesListener: the instruction invokes Close on the Service's listener (the loaded member or a copy of it), or calls
+// a repo function that contains such a call.
+func (ec *effectCache) closesListener(in ssa.Instruction) bool {
+	c, ok := in.(*ssa.Call)
+	if !ok {
+		return false
+	}
+	if c.Call.IsInvoke() && c.Call.Method.Name() == "Close" && strings.HasSuffix(strip(ec.T.T(c.Call.Value)), ".listener") {
+		return true
+	}
+	t := staticTarget(&c.Call)
+	if t == nil || !ec.p.InRepo(t) || t.Blocks == nil {
+		return false
+	}
+	switch ec.closes[t] {
+	case 1:
+		return true
+	case 2, 3:
+		return false
+	}
+	ec.closes[t] = 3
+	found := false
+	for _, b := range t.Blocks {
+		for _, i2 := range b.Instrs {
+			if ec.closesListener(i2) {
+				found = true
+			}
+		}
+	}
+	ec.closes[t] = ifi(found, 1, 2)
+	return found
+}
+
+func ifi(c bool, a, b int) int {
+	if c {
+		return a
+	}
+	return b
 }
